@@ -136,9 +136,15 @@ fn claims(w: &World, accts: &[Pubkey], bank: &Pubkey) -> Vec<(i128, BigInt)> {
 /// one bankruptcy attempt; returns the family line (when the bank has no transfer fee) and reports predicates
 pub fn attempt(bw: &mut Bw, rng: &mut Rng, rep: &mut Report, lines: Option<&mut Vec<String>>) {
     let lb = bw.lb;
-    // bring the bank up to date: the handler's accrual is then a no-op and the line carries the accrued bank
-    let _ = bw.w.exec(&ix::accrue(&lb));
-    let bank0 = bw.w.bank(&lb.bank);
+    // half of the attempts bring the bank up to date first (the handler's accrual is then a no-op and the `bk.handle` line
+    // carries the accrued bank); the other half leave the interest since the last update to the HANDLER: everything below is
+    // judged against an accrual done on a copy of the world, and the `ix.bkr` line carries the un-accrued bank + its curve
+    let pre_accrue = rng.chance(1, 2);
+    if pre_accrue {
+        let _ = bw.w.exec(&ix::accrue(&lb));
+    }
+    let accrued_copy = |w: &World| -> World { let mut w2 = w.clone(); let _ = w2.exec(&ix::accrue(&lb)); w2 };
+    let bank0 = accrued_copy(&bw.w).bank(&lb.bank);
     let acc0 = bw.w.marginfi_account(&bw.victim);
     let Some(bal0) = acc0.lending_account.balances.iter().find(|x| x.is_active() && x.bank_pk == lb.bank).cloned() else { return };
     let bad_debt: BigInt = (big(bits(bal0.liability_shares)) * big(bits(bank0.liability_share_value))) >> 48u32;
@@ -158,19 +164,54 @@ pub fn attempt(bw: &mut Bw, rng: &mut Rng, rep: &mut Report, lines: Option<&mut 
         if permissionless { b.flags |= PERMISSIONLESS_BAD_DEBT_SETTLEMENT_FLAG } else { b.flags &= !PERMISSIONLESS_BAD_DEBT_SETTLEMENT_FLAG }
         bw.w.set_bank(&lb.bank, &b);
     }
-    let bank0 = bw.w.bank(&lb.bank);
+    let bank_raw = bw.w.bank(&lb.bank);
+    let w_acc = accrued_copy(&bw.w);
+    let bank0 = w_acc.bank(&lb.bank);
     let (who, signer) = match rng.below(4) { 0 => ("admin", bw.admin), 1 => ("risk-admin", bw.risk_admin), _ => ("stranger", bw.stranger) };
     let pre_h = crate::mon_c10::health(&bw.w, &bw.victim);
-    let c0 = claims(&bw.w, &bw.depositors, &lb.bank);
+    let c0 = claims(&w_acc, &bw.depositors, &lb.bank);
     let (lv0, iv0) = (bw.w.token_amount(&lb.liquidity_vault), bw.w.token_amount(&lb.insurance_vault));
     let sl0 = bits(bank0.total_liability_shares);
-    let slack0 = crate::scen::slack_of(&bw.w, &lb);
+    let slack0 = crate::scen::slack_of(&w_acc, &lb);
+    if !pre_accrue && bank_raw.last_update != bank0.last_update { rep.bump("accrual_left_to_the_handler"); }
+    // ---- the insurance that pays is the BANK's insurance: a look-alike token account (right mint, right
+    // authority, any balance) or a crossed vault in the insurance or liquidity seat must be refused outright
+    if rng.chance(1, 4) {
+        let snap = bw.w.accounts.clone();
+        let auth_signer = if permissionless { signer } else { bw.admin };
+        let mut sub = lb.clone();
+        let which = rng.below(4);
+        let what = match which {
+            0 => { sub.insurance_vault = bw.w.add_token_account(lb.mint, lb.insurance_vault_authority, ins); "a look-alike insurance vault (same mint, same authority)" }
+            1 => { sub.insurance_vault = bw.w.add_token_account(lb.mint, lb.insurance_vault_authority, 0); "an EMPTY look-alike insurance vault (same mint, same authority)" }
+            2 => { sub.liquidity_vault = bw.w.add_token_account(lb.mint, lb.liquidity_vault_authority, 0); "a look-alike liquidity vault (same mint, same authority)" }
+            _ => { sub.insurance_vault = lb.fee_vault; "the bank's fee vault in the insurance seat" }
+        };
+        let snap2 = bw.w.accounts.clone();
+        let risk = bw.w.remaining_in_slot_order(&bw.victim);
+        let r = bw.w.exec(&ix::handle_bankruptcy(&sub, auth_signer, bw.victim, risk));
+        rep.bump("substitution_probes");
+        if r.is_ok() {
+            let b1 = bw.w.bank(&lb.bank);
+            rep.fail(format!("C07 bankruptcy settled with {} in place of the bank's own vault: bad debt {} bits, real insurance {} tokens left untouched = {}, deposit share value {} -> {}",
+                what, bad_debt, ins, bw.w.token_amount(&lb.insurance_vault) == ins, bits(bank0.asset_share_value), bits(b1.asset_share_value)));
+        } else if bw.w.accounts != snap2 {
+            rep.fail("C08 a rejected bankruptcy changed the account store".to_string());
+        }
+        bw.w.accounts = snap;
+    }
     let before = bw.w.accounts.clone();
     let risk = bw.w.remaining_in_slot_order(&bw.victim);
     let r = bw.w.exec(&ix::handle_bankruptcy(&lb, signer, bw.victim, risk));
     rep.bump("cases");
     let now = bw.w.clock_ts;
-    let line_head = format!("bk.handle {} {} {} {}", B::from_bank(&bank0).line(), Bal::from_balance(&bal0).line(), ins, now);
+    let line_head = if pre_accrue {
+        format!("bk.handle {} {} {} {}", B::from_bank(&bank0).line(), Bal::from_balance(&bal0).line(), ins, now)
+    } else {
+        let group = bw.w.group(&lb.group);
+        let ir = crate::fam_curve::Ir::from_real(&bank_raw.config.interest_rate_config, &group);
+        format!("ix.bkr {} {} {} {} {} {}", B::from_bank(&bank_raw).line(), bank_raw.last_update, ir.line(), Bal::from_balance(&bal0).line(), ins, now)
+    };
     match r {
         Err(e) => {
             rep.bump("rejected");
@@ -277,6 +318,13 @@ pub fn attempt(bw: &mut Bw, rng: &mut Rng, rep: &mut Report, lines: Option<&mut 
             let l1 = bal1.as_ref().map(|b| bits(b.liability_shares)).unwrap_or(0);
             if big(l1) * big(bits(bank1.liability_share_value)) >= (big(ONE) << 48u32) {
                 rep.fail(format!("C07 bankrupt account still owes {} shares: {}", l1, tag));
+                if !pre_accrue && bank_raw.last_update != bank1.last_update {
+                    rep.fail(format!("C06 a bankruptcy settled against STALE share values: the bank had not been accrued since {} (now {}), the debt was sized at the old liability share value {} instead of the accrued {}, and the disabled account keeps {} debt shares: {}",
+                        bank_raw.last_update, bank1.last_update, bits(bank_raw.liability_share_value), bits(bank0.liability_share_value), l1, tag));
+                }
+            }
+            if !pre_accrue && bank1.last_update != now as i64 {
+                rep.fail(format!("C06 bankruptcy settled without bringing the bank's interest up to the current time (last_update {} != now {}): {}", bank1.last_update, now, tag));
             }
             let sl1 = bits(bank1.total_liability_shares);
             if sl0 - sl1 != bits(bal0.liability_shares) - l1 {
@@ -284,9 +332,10 @@ pub fn attempt(bw: &mut Bw, rng: &mut Rng, rep: &mut Report, lines: Option<&mut 
             }
             if let (Some(l), false, Some(b1)) = (lines, bw.fee_mint, bal1) {
                 l.push(format!(
-                    "{} => ok {} {} {} {}",
+                    "{} => ok {}{} {} {} {}",
                     line_head,
                     B::from_bank(&bank1).line(),
+                    if pre_accrue { String::new() } else { format!(" {}", bank1.last_update) },
                     Bal::from_balance(&b1).line(),
                     got,
                     (bank1.config.operational_state == BankOperationalState::KilledByBankruptcy) as u8
